@@ -137,3 +137,59 @@ class Fields:
         K = -(dtgam - lie) / (2 * alpha)
         return {"gammadown3": gam, "Kdown3": K, "alpha": alpha, "betaup3": beta,
                 "dtalpha": self.ev(c["alpha"].d(0)), "dtbetaup3": np.array([self.ev(b.d(0)) for b in c["beta"]])}
+
+
+# ---------------------------------------------------------------------------
+# exact vacuum solutions at rational points (for the vacuum=True shortcuts)
+def _jet_of_expr(expr, syms, point):
+    import sympy as sp
+    j = J.Jet()
+    xi = sp.symbols("xi0:4")
+    for m in J.MONS:
+        d = expr
+        for k in range(4):
+            for _ in range(m[k]):
+                d = sp.diff(d, syms[k])
+        val = sp.nsimplify(sp.simplify(d.subs({syms[k]: point[k] for k in range(4)})))
+        fact = 1
+        for k in range(4):
+            for q in range(1, m[k] + 1):
+                fact *= q
+        val = sp.Rational(val) / fact
+        assert val.is_Rational, (m, val)
+        j.c[m] = F(int(val.p), int(val.q))
+    return j
+
+
+def vacuum_cases(seed=0):
+    """Schwarzschild in Painleve-Gullstrand coordinates (alpha = 1, flat slices, shift != 0, K != 0) and in isotropic
+    coordinates (lapse != 1, conformally flat), expanded around points where every 2-jet is rational."""
+    import sympy as sp
+    t, x, y, z = sp.symbols("t x y z", real=True)
+    syms = (t, x, y, z)
+    out = []
+    rng = Random(900 + seed)
+    # Painleve-Gullstrand: r0 = 7/10 at (2, 3, 6)/10, 2M/r0 = 1/4
+    pt = (0, sp.Rational(2, 10), sp.Rational(3, 10), sp.Rational(6, 10))
+    r = sp.sqrt(x ** 2 + y ** 2 + z ** 2)
+    Mpg = sp.Rational(7, 80)
+    beta = [sp.sqrt(2 * Mpg / r) * c / r for c in (x, y, z)]
+    case = {"cls": "vacuum-PG", "seed": seed, "alpha": J.Jet.const(1), "beta": [_jet_of_expr(b, syms, pt) for b in beta],
+            "gam": {k: J.Jet.const(1 if k[0] == k[1] else 0) for k in SYM}, "lam": F(0), "sd": F(1), "cr": F(1), "vacuum": True}
+    out.append(case)
+    # isotropic: rho0 = 3/2 at (1, 1/2, 1), M = 1  ->  psi = 1 + M/(2 rho) = 4/3
+    pt2 = (0, sp.Integer(1), sp.Rational(1, 2), sp.Integer(1))
+    Mi = sp.Integer(1)
+    psi = 1 + Mi / (2 * r)
+    al = (1 - Mi / (2 * r)) / (1 + Mi / (2 * r))
+    gam = {k: _jet_of_expr(psi ** 4, syms, pt2) if k[0] == k[1] else J.Jet() for k in SYM}
+    p0 = F(4, 3)
+    case2 = {"cls": "vacuum-isotropic", "seed": seed, "alpha": _jet_of_expr(al, syms, pt2), "beta": [J.Jet(), J.Jet(), J.Jet()],
+             "gam": gam, "lam": F(0), "sd": p0 ** 6, "cr": p0 ** 4, "vacuum": True}
+    out.append(case2)
+    for c in out:
+        c["phi"] = rand_jet(rng, F(3, 4), tdep=False)
+        c["vec"] = [rand_jet(rng, rnd(rng), tdep=False) for _ in range(3)]
+        c["ten"] = [rand_jet(rng, rnd(rng), tdep=False) for _ in range(9)]
+        c["vec4"] = [rand_jet(rng, rnd(rng)) for _ in range(4)]
+    return out
